@@ -52,7 +52,7 @@ def jobs(tier, seed, prop):
                 ords = (2,) if rule == "semilocalp" else (1, 2)
             for o in ords:
                 sub = {"R": rule, "O": o, "LV": (6 if tier == "quick" else 8) if kind == "diff" else (LVS if kind in ("support", "nested") else LV), "LX": (6 if tier == "quick" else 8) if kind == "diff" else (8 if (rule == "semilocalp" and tier == "quick") else LX),
-                       "SF": ("2.0" if kind == "nested" else "1.0") if rule == "pwc" else "1.0", "NK": NK[rule], "ISB": 1 if rule == "localpb" else 0}
+                       "SF": ("2.0" if kind == "nested" else "1.0") if rule == "pwc" else "1.0", "NK": NK[rule], "ISB": 1 if rule == "localpb" else 0, "TOL": "0x1p-48" if rule == "pwc" else "0.0"}
                 cf = ContractFile("contracts/basis.c", sub)
                 lemma = "lemma_%s_%s" % (kind, rule)
                 R = X.Rules()
